@@ -28,6 +28,10 @@ import subprocess
 import sys
 import time
 
+# source files taken in as a whole (tools/check.py uncovered_fingerprint)
+COVERED_FILES = ["proxy_agent/src/redirector/linux/ebpf_obj.rs"]
+
+
 HERE = os.path.dirname(os.path.abspath(__file__))
 VERIF = os.path.dirname(os.path.dirname(HERE))
 UNIT = "ebpf_rs"
